@@ -95,6 +95,20 @@ func main() {
 			dirs = defaultCorpus(repo)
 		}
 		os.Exit(validateTheory(e, dirs))
+	case "recursion":
+		e, err := loadEngine(repo, repoPatterns)
+		if err != nil {
+			fmt.Fprintln(os.Stderr, "load:", err)
+			os.Exit(2)
+		}
+		for _, comp := range recursiveFunctions(e) {
+			var ks []string
+			for _, f := range comp {
+				ks = append(ks, funcKey(f))
+			}
+			fmt.Println(strings.Join(ks, "  <->  "))
+		}
+		return
 	case "dump", "vc", "list":
 		e, err := loadEngine(repo, repoPatterns)
 		if err != nil {
